@@ -327,12 +327,78 @@ fn classify(c: &Case, rows: &[Val]) -> Option<&'static str> {
         "pages" if c.n >= 2 => (c.n / 2, true),
         _ => (0, false),
     };
+    let sh = crate::c27::FileShape { split, pages, fullzip: c.structural == "fullzip", sliced: matches!(c.batching.as_str(), "sliced" | "two" | "pages") };
     for p in paths {
         let stack: Vec<Layer> = p.iter().map(|s| if matches!(s, Step::List) { Layer::List } else { Layer::Struct }).collect();
         let vs: Vec<V> = col.iter().map(|v| to_v(v, &p)).collect();
-        if let Some(cause) = crate::c27::file_cause(&stack, &vs, split, pages) {
+        if let Some(cause) = crate::c27::file_cause(&stack, &vs, sh) {
             return Some(cause);
         }
+        // the generator hands an (empty) validity bitmap to a fixed_size_list leaf array of zero slots:
+        // the "rows but no leaf slot, leaf still carries a bitmap" shape of the current_len defect
+        if c.n > 0 && leaf_is_fsl(&c.ty, &p) && crate::c27::flatten(&stack, &vs)[stack.len()].validity.is_empty() {
+            return Some(crate::c27::K_CURRENT_LEN);
+        }
+    }
+    None
+}
+
+fn leaf_is_fsl(ty: &Ty, path: &[Step]) -> bool {
+    match (ty, path.first()) {
+        (Ty::Fsl(_), None) => true,
+        (Ty::List(t), Some(Step::List)) | (Ty::LargeList(t), Some(Step::List)) => leaf_is_fsl(t, &path[1..]),
+        (Ty::Struct(ts), Some(Step::Field(i))) => leaf_is_fsl(&ts[*i], &path[1..]),
+        _ => false,
+    }
+}
+
+/// items of every (outermost) fixed_size_list value reachable in `v`
+fn fsl_items<'a>(ty: &Ty, v: &'a Val, out: &mut Vec<&'a Val>) {
+    match (ty, v) {
+        (Ty::Fsl(_), Val::List(xs)) => out.extend(xs.iter()),
+        (Ty::List(t), Val::List(xs)) | (Ty::LargeList(t), Val::List(xs)) => xs.iter().for_each(|x| fsl_items(t, x, out)),
+        (Ty::Struct(ts), Val::Struct(fs)) => ts.iter().zip(fs.iter()).for_each(|(t, (_, x))| fsl_items(t, x, out)),
+        _ => {}
+    }
+}
+
+/// a fixed_size_list column (possibly nested) all of whose items are NULL
+fn fsl_all_items_null(c: &Case, rows: &[Val]) -> bool {
+    let mut items = vec![];
+    for r in rows {
+        if let Val::Struct(fs) = r {
+            fsl_items(&c.ty, &fs[1].1, &mut items);
+        }
+    }
+    fn all_null(v: &Val) -> bool {
+        match v {
+            Val::Null => true,
+            Val::List(xs) => !xs.is_empty() && xs.iter().all(all_null),
+            _ => false,
+        }
+    }
+    !items.is_empty() && items.iter().all(|v| all_null(v))
+}
+
+fn has_leaf(ty: &Ty, name: &str) -> bool {
+    match ty {
+        Ty::Leaf(l) => l == name,
+        Ty::List(t) | Ty::LargeList(t) | Ty::Fsl(t) => has_leaf(t, name),
+        Ty::Struct(ts) => ts.iter().any(|t| has_leaf(t, name)),
+    }
+}
+
+/// shapes that are not rep/def shapes: configuration + type classes
+fn classify_config(c: &Case) -> Option<&'static str> {
+    if c.version == "2.0" || c.version == "0.1" {
+        return None;
+    }
+    if c.structural == "fullzip" && has_leaf(&c.ty, "bool") {
+        // the writer accepts the request (no error from try_new / write_batch) and the encode task panics
+        return Some("fullzip/boolean-leaf-accepted-then-encode-task-panics");
+    }
+    if has_leaf(&c.ty, "null") && !matches!(c.ty, Ty::Leaf(_)) {
+        return Some("null-typed-items-inside-a-container");
     }
     None
 }
@@ -834,18 +900,16 @@ fn run_case(fs: &Fs, c: &Case, heavy: bool, cov: &mut Cov, viol: &mut Vec<Violat
             }
             let (_, _, whole) = build_batches(c);
             let rows = val::batch_rows(&whole).unwrap_or_default();
-            let cause = classify(c, &rows);
+            let cause = classify(c, &rows).or_else(|| classify_config(c)).or_else(|| if c.version.starts_with("2.") && c.version != "2.0" && fsl_all_items_null(c, &rows) { Some("fsl/all-items-null-cannot-be-written") } else { None });
             for (k, d, req) in fr.fails {
                 cov.outcome(&format!("FAIL/{}/{}", c.version, cause.unwrap_or("unclassified")));
                 let key = match cause {
-                    Some(cs) => {
-                        let sym = if k.contains("/value/") { k.split('/').skip(1).collect::<Vec<_>>().join("/") } else { k.split('/').nth(1).unwrap_or("?").to_string() };
-                        format!("file/{}/{cs}/{sym}", c.version)
-                    }
+                    Some(cs) => cs.to_string(),
                     // the request kind (full / range / ranges / indices / projection) is part of the
                     // description, not of the key: one defect shows through all of them
-                    None => format!("file/{}/{}/{cfg_class}/{}", c.version, c.ty.skeleton(), k.split('/').skip(1).collect::<Vec<_>>().join("/")),
+                    None => format!("file/unclassified/{}/{}/{cfg_class}/{}", c.version, c.ty.skeleton(), k.split('/').skip(1).collect::<Vec<_>>().join("/")),
                 };
+                let d = format!("[{k}] {d}");
                 let mut cj = case.clone();
                 cj["read"] = req;
                 viol.push(Violation::new("file-roundtrip", &key, format!("type {} n {} spec {:?} {} {cfg_class}: {d}", c.ty.name(), c.n, c.spec, c.version), cj));
@@ -862,11 +926,11 @@ fn run_case(fs: &Fs, c: &Case, heavy: bool, cov: &mut Cov, viol: &mut Vec<Violat
             cov.nontrivial.insert(h);
             let (_, _, whole) = build_batches(c);
             let rows = val::batch_rows(&whole).unwrap_or_default();
-            let cause = classify(c, &rows);
+            let cause = classify(c, &rows).or_else(|| classify_config(c)).or_else(|| if c.version.starts_with("2.") && c.version != "2.0" && fsl_all_items_null(c, &rows) { Some("fsl/all-items-null-cannot-be-written") } else { None });
             cov.outcome(&format!("PANIC/{}/{}", c.version, cause.unwrap_or("unclassified")));
             let key = match cause {
-                Some(cs) => format!("file/{}/{cs}/panic", c.version),
-                None => format!("file/{}/{}/{cfg_class}/panic/{}", c.version, c.ty.skeleton(), val::msg_class(&msg)),
+                Some(cs) => cs.to_string(),
+                None => format!("file/unclassified/{}/{}/{cfg_class}/panic/{}", c.version, c.ty.skeleton(), val::msg_class(&msg)),
             };
             viol.push(Violation::new("file-roundtrip", &key, format!("type {} n {} spec {:?} {} {cfg_class}: panic: {msg}", c.ty.name(), c.n, c.spec, c.version), case));
             false
@@ -898,7 +962,7 @@ pub fn run(ctx: &Ctx) -> Outcome {
     for (i, c) in all.into_iter().enumerate() {
         chunks[i % parts].push(c);
     }
-    let deadline = ctx.tier.pick(40.0, 840.0);
+    let deadline = ctx.opts.get("deadline").and_then(|d| d.parse().ok()).unwrap_or(ctx.tier.pick(40.0, 840.0));
     let start = ctx.start;
     let capped = std::sync::atomic::AtomicBool::new(false);
     let done = std::sync::atomic::AtomicU64::new(0);
